@@ -4,6 +4,7 @@ import Flowjaxv.Proofs.Flows
 import Flowjaxv.Proofs.JaxTransforms
 import Flowjaxv.Proofs.MergeGen
 import Flowjaxv.Proofs.MergeGenWF
+import Flowjaxv.Proofs.TriSplineMass
 /-!
 # C03 — transformed densities obey change of variables on both evaluation paths
 
@@ -231,6 +232,36 @@ theorem gen_scan_transformed_consistent {X C K : Type} (base : Distn X C K ℝ) 
 
 end JaxTransformsGen
 
+/-! ## `triangular_spline_flow.make_layer`, REGENERATED (`Gen/Flows.lean`, translator `py2flows.FTr`; g25; see C01 `gen_tri_spline_make_layer_eq`) -/
+section TriSplineGen
+open Flows FlowsPf
+variable {K : Type}
+
+/-- `tri_spline_flow_ld_antisym` about the REGENERATED closure: the inverse pass of the flow whose layers are the generated
+`make_layer` returns minus the forward log-det at the preimage — every number of layers, both orientations, every key -/
+theorem gen_tri_spline_flow_ld_antisym {dim : ℕ} {m : ℝ} {knots : ℕ} {cond_dim : Option ℕ} {key : ℕ → TriSplineKey ℝ} {n : ℕ}
+    (h : GenTriSplineKeysOK dim m knots cond_dim key n) (invert : Bool) :
+    (genTriSplineFlowBij dim m knots cond_dim key n invert).LdAntisym (Vec dim) :=
+  FlowsPf.gen_tri_spline_flow_ldAntisym h invert
+
+/-- `tri_spline_flow_change_of_variables` about the regenerated closure and the generated `Transformed(base_dist, bijection)` -/
+theorem gen_tri_spline_flow_change_of_variables {dim : ℕ} {m : ℝ} {knots : ℕ} {cond_dim : Option ℕ} {key : ℕ → TriSplineKey ℝ}
+    {n : ℕ} (h : GenTriSplineKeysOK dim m knots cond_dim key n) (invert : Bool) (base : VDist K ℝ) :
+    let b := genTriSplineFlowBij dim m knots cond_dim key n invert
+    let d := genTriSplineFlow dim m knots cond_dim key n invert base
+    (∀ x c, d.logProb x c = base.logProb (b.inv x c) c + (b.invLd x c).2) ∧
+    (∀ k c, d.sample k c = b.fwd (base.sample k c) c) ∧
+    (∀ k c, d.sampleLp k c = (b.fwd (base.sampleLp k c).1 c, (base.sampleLp k c).2 - (b.fwdLd (base.sampleLp k c).1 c).2)) ∧
+    (base.Consistent → (∀ k c, base.sample k c ∈ Vec dim) → d.Consistent) :=
+  FlowsPf.flow_change_of_variables (FlowsPf.gen_tri_spline_flow_lawful h invert) (FlowsPf.gen_tri_spline_flow_ldAntisym h invert) base
+
+/-- non-vacuity: the 2-layer conditional generated flow of C01 `gen_tri_spline_flow_instance` over any consistent base that samples
+vectors of length 3 is consistent, in both orientations -/
+theorem gen_tri_spline_flow_cov_instance (base : VDist K ℝ) (hc : base.Consistent) (hD : ∀ k c, base.sample k c ∈ Vec 3)
+    (invert : Bool) : (genTriSplineFlow 3 3 4 (some 2) genTriKeys 2 invert base).Consistent :=
+  (gen_tri_spline_flow_change_of_variables genTriKeys_ok invert base).2.2.2 hc hD
+
+end TriSplineGen
 
 /-! ## `merge_transforms`, `shape`, `cond_shape` of `AbstractTransformed`, REGENERATED (`Gen/MergeGen.lean`, translated from
 `distributions.py` on every run by `tools/py2lean/py2meth.py`, sheet `targets_merge.py`; objects and Python constructs:
